@@ -417,6 +417,36 @@ def bounded(tier, seed):
                 finally:
                     g.close()
             run.case('C07:NETCDF4 with unlimited dimensions %s' % ','.join(which), which, t)
+        # variable attributes whose NAMES collide with attributes of the netCDF4 variable object (scale, name, datatype, dimensions,
+        # dtype, shape ...) and attribute values of another type than the variable: names, values and value types come back
+        for fl in flavours:
+            f = P.PseudoNetCDFFile()
+            f.createDimension('x', 3)
+            v = f.createVariable('conc', 'f', ('x',), values=np.array([1., 2., 3.], 'f'), units='ppb')
+            odd = dict(scale=2.5, name='an alias', datatype='ratio', valid_min=np.float64(0.25), valid_range=np.array([0., 10.], 'd'), flag=np.int16(3))
+            for k_, val_ in odd.items():
+                setattr(v, k_, val_)
+            path = os.path.join(tmp, 'odd_%s.nc' % fl)
+
+            def t(f=f, path=path, fl=fl, odd=odd):
+                import netCDF4
+                f.save(path, format=fl, verbose=0).close()
+                ds = netCDF4.Dataset(path)
+                try:
+                    w = ds.variables['conc']
+                    have = list(w.ncattrs())
+                    for k_, val_ in odd.items():
+                        if k_ not in have:
+                            return 'variable attribute %r is missing from the saved file (attributes: %r)' % (k_, have)
+                        got = w.getncattr(k_)
+                        if not H._eqv(got, val_):
+                            return 'variable attribute %r: %r saved as %r' % (k_, val_, got)
+                        if np.asarray(got).dtype.kind != np.asarray(val_).dtype.kind or (np.asarray(val_).dtype.kind in 'fiu' and np.asarray(got).dtype.itemsize != np.asarray(val_).dtype.itemsize):
+                            return 'variable attribute %r: type %s saved as %s' % (k_, np.asarray(val_).dtype, np.asarray(got).dtype)
+                finally:
+                    ds.close()
+                return None
+            run.case('C07:variable attributes with reserved names / other types (%s)' % fl, fl, t)
         # explicit missing_value different from fill_value
         for mvv, fvv in ((-999.0, -1.0), (-1.0, -999.0)):
             f = P.PseudoNetCDFFile()
